@@ -75,7 +75,9 @@ pub fn replace_table(dsl: &str) -> String {
 }
 
 pub fn gen_input(rng: &mut Rng, opts: &GenOpts) -> ExecInput {
-    let p = gen_program(rng, opts);
+    let mut p = gen_program(rng, opts);
+    // one program in five is ill-typed at run time (the failing half of the properties)
+    if rng.chance(20) { let _ = crate::gen::inject_runtime_fault(rng, &mut p); }
     let src = gen_source(rng);
     ExecInput { dsl: p.text(), src, supplied: p.supplied }
 }
